@@ -182,3 +182,15 @@ def cases(thorough):
     yield from unary_cases()
     yield from truth_cases()
     yield from aug_cases()
+
+
+STRIPES = 8
+
+
+def tasks(thorough, seed):
+    return [("ops", thorough, i) for i in range(STRIPES)]
+
+
+def expand(desc):
+    _, thorough, i = desc
+    return itertools.islice(cases(thorough), i, None, STRIPES)
